@@ -1,7 +1,7 @@
 (* C17 as declarative notions over row lists, a reference semantics that buffers the raw rows of
    every group, and an executable checker for the implementation's own output.
-   Nothing here mentions running aggregator states, placeholders or the binding of predicate calls
-   to SELECT aggregates. *)
+   Nothing here mentions running aggregator states or placeholders; the binding of predicate calls to
+   SELECT aggregates appears only in gw_bind_ok (is the binding faithful?) and gw_eff (the predicate as bound). *)
 From SV Require Export Model.GlobalWin.
 
 (* the aggregate fn(field) of a list of rows: a fresh aggregator fed with exactly these rows *)
@@ -60,6 +60,45 @@ Definition gw_holds3 (p : gw_pred) (seg : list gw_row) : bool :=
   | Some true => true
   | _ => false
   end.
+
+(* ---------------------------------------------------------------- binding *)
+(* A binding is faithful when every bound call reads a SELECT aggregate of the same function over the
+   same field. (The code's findOutputSpec compares the field names case-insensitively, so with two
+   columns that differ in letter case only it produces bindings that are not faithful.) *)
+Fixpoint gw_bind_okb (outs calls : list gw_ref) (bind : list (option nat)) : bool :=
+  match calls with
+  | [] => true
+  | a :: t =>
+      match hd None bind with
+      | Some j => match nth_error outs j with Some o => gw_ref_eqb o a | None => true end
+      | None => true
+      end && gw_bind_okb outs t (tl bind)
+  end.
+Definition gw_bind_ok (c : gw_config) : Prop :=
+  gw_bind_okb (gc_outs c) (gw_calls (gc_pred c)) (gc_bind c) = true.
+
+(* the predicate as bound: every bound call replaced by the SELECT aggregate it reads *)
+Definition gw_eff_call (outs : list gw_ref) (a : gw_ref) (b : option nat) : gw_ref :=
+  match b with
+  | Some j => match nth_error outs j with Some o => o | None => a end
+  | None => a
+  end.
+Fixpoint gw_eff_calls (outs calls : list gw_ref) (bind : list (option nat)) : list gw_ref :=
+  match calls with
+  | [] => []
+  | a :: t => gw_eff_call outs a (hd None bind) :: gw_eff_calls outs t (tl bind)
+  end.
+(* the i-th call of p (document order) replaced by the i-th element of l *)
+Fixpoint gw_subst (p : gw_pred) (l : list gw_ref) : gw_pred :=
+  match p with
+  | GPAtom a c lit => GPAtom (hd a l) c lit
+  | GPAnd p q => GPAnd (gw_subst p l) (gw_subst q (skipn (length (gw_calls p)) l))
+  | GPOr p q => GPOr (gw_subst p l) (gw_subst q (skipn (length (gw_calls p)) l))
+  end.
+Definition gw_eff_pred (c : gw_config) : gw_pred :=
+  gw_subst (gc_pred c) (gw_eff_calls (gc_outs c) (gw_calls (gc_pred c)) (gc_bind c)).
+Definition gw_eff (c : gw_config) : gw_config :=
+  {| gc_outs := gc_outs c; gc_pred := gw_eff_pred c; gc_bind := gc_bind c |}.
 
 (* ---------------------------------------------------------------- reference semantics *)
 (* per group: the rows received since the group last fired *)
